@@ -93,9 +93,10 @@ def mappings_impl(ctx):
         else:
             # the code did something the transcribed mechanism does not do: judge it by the property alone
             tp = mappings_trace(ctx, keep, "PersistCacheMappingsTrace_prop.cfg", "mappings trace, property only")
+            if tp.violated and not tp.violated.startswith("invariant"):
+                raise Infra("trace unreadable for PersistCacheMappingsTrace (%s %s), see %s" % (tp.violated, tp.printed[-1:], keep))
             if tp.violated:
-                sig = tp.violated if tp.violated.startswith("invariant") else "trace-rejected"
-                ctx.violation("mappings:" + sig, "real MappingsCache execution violates %s %s" % (tp.violated, where), keep)
+                ctx.violation("mappings:" + tp.violated, "real MappingsCache execution violates %s %s" % (tp.violated, where), keep)
             else:
                 ctx.log("NOTE: MappingsCache deviates from the transcribed mechanism at %s but every observed "
                         "execution satisfies the property" % where)
@@ -160,7 +161,7 @@ def chunks_replay(ctx, behs, mode, stage, **kw):
 def chunks_impl(ctx):
     th = ctx.thorough
     rnd = random.Random(ctx.seed + 21)
-    behs = sim_behaviours(ctx, "PersistCacheChunks_sim.cfg", 1200 if th else 200, 3 if th else 1, rnd,
+    behs = sim_behaviours(ctx, "PersistCacheChunks_sim.cfg", 600 if th else 200, 2 if th else 1, rnd,
                           "chunks: simulated long behaviours (real flush threshold)")
     nsim = len(behs)
     # directed: save two chunks, close, then everything within 8 more operations (rewrite, crash inside
@@ -176,25 +177,25 @@ def chunks_impl(ctx):
         ctx.require_model_ok(ex, "chunks behaviour export")
         short = [b for b in maximal(dedupe(ex.behaviours)) if any(s["a"] == "Read" for s in b)]
         rnd.shuffle(short)
-        behs += short[:6000]
+        behs += short[:4000]
     chunks_replay(ctx, behs, "real", "chunks-real-unit", simulated=nsim, directed=len(directed),
                   exhaustive_short=len(behs) - nsim - len(directed))
-    small = sim_behaviours(ctx, "PersistCacheChunks_sim_small.cfg", 600 if th else 150, 2 if th else 1, rnd,
+    small = sim_behaviours(ctx, "PersistCacheChunks_sim_small.cfg", 300 if th else 150, 1, rnd,
                            "chunks: simulated long behaviours (small items, one chunk per save)")
     chunks_replay(ctx, small, "small", "chunks-small-unit", simulated=len(small))
 
 
 def run(ctx):
-    only = os.environ.get("VERIF_C21_ONLY", "")   # development aid: "chunks" / "mappings" = conformance stage only
+    only = os.environ.get("VERIF_C21_ONLY", "")   # development aid: "chunks" / "mappings" / "impl" = conformance stages only
     if only:
         ctx.log("VERIF_C21_ONLY=%s: model-checking stages skipped" % only)
     if not only:
         chunks_model(ctx)
-    if only in ("", "chunks"):
+    if only in ("", "chunks", "impl"):
         chunks_impl(ctx)
     if not only:
         mappings_model(ctx)
-    if only in ("", "mappings"):
+    if only in ("", "mappings", "impl"):
         mappings_impl(ctx)
     ctx.ev.set("exhaustive", True)
     ctx.ev.assume("xxh3-128 is treated as collision free (a corrupted chunk never keeps its hash)")
